@@ -46,6 +46,14 @@ pub fn canon(input: &str) -> (String, String) {
                 C::Panic(p) => (format!("compile-panic:{}", panic_site(&p)), format!("{head}\nC-PANIC {}", panic_site(&p))),
                 C::Err(t) => ("compile-err".into(), format!("{head}\nC-ERR {t}")),
                 C::Ok(h) => {
+                    if input == "-true" || input == "-mmin 1 -fprint f" {
+                        // a device path with very many characters to escape (once, not per input)
+                        for k in [1000usize, 10_000, 100_000] {
+                            if let Err(p) = h.scheme(&"\"\\".repeat(k)) {
+                                return (format!("compile-panic:{}", panic_site(&p)), format!("{head}\nRENDER-PANIC {}", panic_site(&p)));
+                            }
+                        }
+                    }
                     let a = h.scheme("/");
                     let b = h.scheme("a\"b\\\n)");
                     let io = h.io_map();
